@@ -587,8 +587,32 @@ def corner_defs():
     ]
 
 
+def known_live_views(ctx):
+    """Open finding: freeze_value converts dict / set / list / tuple only; another Mapping or Set (a keys view, a
+    MappingProxyType, a UserDict) is stored as it is, so a later change by the caller reaches the automaton."""
+    import types
+    table = {0: {"a": 1}, 1: {"a": 1}}
+    out = ("err", 0, "")
+    try:
+        d = by_cls("DFA")(states={0, 1}, input_symbols={"a"}, transitions=types.MappingProxyType(table), initial_state=0,
+                          final_states={1})
+        before = d.accepts_input("a")
+        table[0] = {"a": 0}
+        out = ("ok", (before, d.accepts_input("a")))
+    except Exception as e:  # noqa: BLE001
+        out = ("err", 0, type(e).__name__)
+    ctx.open_finding("constructor_keeps_non_builtin_containers_live", out[0] == "ok" and out[1][0] != out[1][1],
+                     "DFA(transitions=MappingProxyType(table)): accepts_input('a') before / after the caller rewrites "
+                     f"table[0]: {out}")
+
+
+def by_cls(name):
+    return {c[0]: c[1] for c in g.class_table()}[name]
+
+
 def run(ctx):
     ctx.rule = RULE
+    known_live_views(ctx)
     rng = ctx.rng
     table = g.class_table()
     by_name = {c[0]: c for c in table}
